@@ -15,7 +15,7 @@ import random
 import time
 
 import vkopf
-from vkopf.driver_api import Ob, split
+from vkopf.driver_api import Ob, split, sample
 from vkopf.world import rfc7386, base_body
 
 from kopf._cogs.configs import conventions, diffbase, progress
@@ -306,7 +306,7 @@ def obligations():
             for idx in (1, 3, 4):
                 obs.append(Ob('h_roundtrip', dict(cell, pin={'idx': idx, 'other': (idx + 1) % 6, 'retries': 1, 'has_user': True}),
                               tiers=('quick',), timeout=900))
-        obs += split(Ob('h_roundtrip', cell, timeout=1500, tiers=('thorough',)), idx=[0, 1, 2, 3, 4, 5], other=[0, 3], has_user=[False, True])
+        obs += sample(Ob('h_roundtrip', cell, timeout=900, tiers=('thorough',)), 14, seed=160 + i, idx=[0, 1, 2, 3, 4, 5], other=[0, 3], has_user=[False, True])
     obs.append(Ob('h_roundtrip', {'storage': 'annotations', 'prefix': 'kopf.zalando.org', 'v1': True}, tiers=('quick', 'thorough'),
                   timeout=300, twins=['roundtrip', 'drs'], main=False))
     for kind, prefix, v1 in (('annotations', 'kopf.zalando.org', True), ('multi', 'my.op.io', False), ('status', 'kopf.zalando.org', True)):
